@@ -3,6 +3,8 @@
 (*   Case, then the steps of Order(class) - Create, DcLayout, DcFields, DcKeys, SpsdkParse, CheckDcSignature,    *)
 (*   CheckRotHash, Dac, Respond, DarLayout, DarFields, CheckResponseSignature [, Deliver] -,                     *)
 (*   then (Attempt | History | Tamper)*, Done.                                                                   *)
+(* Lane "cred" (Case.lane): Case, then histories of ONE credential object each - CredNew, (CredSign | CredSet | *)
+(*   CredExport | CredParse)* - , Done: the object model of DatTerms is stepped along the logged operations.     *)
 (* The harness drives SPSDK (the host) and the device twin (independent parser / verifier); every number it logs *)
 (* is recomputed here from the case parameters, every crypto fact must be TRUE, every delivery attempt must get  *)
 (* the verdict of the acceptance automaton of DatTerms.                                                          *)
@@ -10,14 +12,15 @@
 (* that the clauses after a known finding are still decided; a step may be absent only if it is listed there.    *)
 EXTENDS DatTerms, DatLayout, Json, IOUtils
 Traces == ndJsonDeserialize(IOEnv.TRACE_FILE)
-VARIABLES tid, l, pos, cs, inp
+VARIABLES tid, l, pos, cs, inp, ob
 T == Traces[tid].ev
 E == T[l]
 V == <<cs.ver[1], cs.ver[2]>>
 N == cs.nkeys
 C == cs.cls
 Order(cls) ==
-  IF cls = "ele2"
+  IF cs.lane = "cred" THEN <<>>            \* the credential-object lane has no fixed part
+  ELSE IF cls = "ele2"
     THEN <<"Create", "DcLayout", "DcFields", "DcKeys", "SpsdkParse", "CheckDcSignature", "Dac", "Respond", "DarLayout", "DarFields",
            "CheckRotHash", "CheckResponseSignature", "Deliver">>
     ELSE <<"Create", "DcLayout", "DcFields", "DcKeys", "SpsdkParse", "CheckDcSignature", "CheckRotHash", "Dac", "Respond", "DarLayout",
@@ -28,17 +31,17 @@ Refused == 99
 Finished == 100
 Is(e) == l <= Len(T) /\ E.e = e /\ pos >= 0 /\ pos < Len(Ord) /\ Ord[pos + 1] = e
 Adv == l' = l + 1 /\ pos' = pos + 1 /\ UNCHANGED tid
-Keep == UNCHANGED <<cs, inp>>
+Keep == UNCHANGED <<cs, inp, ob>>
 Open == pos >= 0 /\ pos = Len(Ord)
 Zero16 == [i \in 1..16 |-> 0]
 Skippable == {"DcFields", "DcKeys", "SpsdkParse", "CheckDcSignature", "CheckRotHash", "Dac", "DarFields", "CheckResponseSignature", "Deliver"}
-TInit == /\ tid \in 1..Len(Traces) /\ l = 1 /\ pos = Start /\ cs = [cls |-> "none"] /\ inp = [none |-> 0] /\ TLCSet(tid, 1)
+TInit == /\ tid \in 1..Len(Traces) /\ l = 1 /\ pos = Start /\ cs = [cls |-> "none", lane |-> "main"] /\ inp = [none |-> 0] /\ ob = [alive |-> FALSE] /\ TLCSet(tid, 1)
 
 TCase == /\ l <= Len(T) /\ E.e = "Case" /\ pos = Start /\ Len(E.ver) = 2 /\ ValidCase(E.cls, <<E.ver[1], E.ver[2]>>, E.nkeys, E.used)
          /\ ValidShape(<<E.ver[1], E.ver[2]>>, E.nkeys, E.lz, E.coord)
          /\ ShapesFit(<<E.ver[1], E.ver[2]>>, E.nkeys, E.used, E.lz, E.coord, E.shapes)      \* the keys of the run have the shape the case asks for
-         /\ {E.skip[i] : i \in 1..Len(E.skip)} \subseteq Skippable
-         /\ cs' = E /\ UNCHANGED <<inp, tid>> /\ l' = l + 1 /\ pos' = 0
+         /\ {E.skip[i] : i \in 1..Len(E.skip)} \subseteq Skippable /\ E.lane \in {"main", "cred"}
+         /\ cs' = E /\ UNCHANGED <<inp, tid, ob>> /\ l' = l + 1 /\ pos' = 0
 \* a step listed in Case.skip may be absent
 TSkip == /\ pos >= 0 /\ pos < Len(Ord) /\ \E i \in 1..Len(cs.skip) : cs.skip[i] = Ord[pos + 1]
          /\ (l > Len(T) \/ E.e # Ord[pos + 1])
@@ -47,7 +50,7 @@ TSkip == /\ pos >= 0 /\ pos < Len(Ord) /\ \E i \in 1..Len(cs.skip) : cs.skip[i] 
 TCreateRefused == Is("Create") /\ ~E.ok /\ Keep /\ l' = l + 1 /\ pos' = Refused /\ UNCHANGED tid
 TCreate == /\ Is("Create") /\ E.ok /\ E.len = DcLen(C, V, N)
            /\ cs.wild = (E.in.uuid = Zero16)
-           /\ inp' = E.in /\ UNCHANGED cs /\ Adv
+           /\ inp' = E.in /\ UNCHANGED <<cs, ob>> /\ Adv
 \* independent walk of the exported bytes: field table = the table of the spec, nothing left over
 TDcLayout == /\ Is("DcLayout") /\ E.fields = DcTable(C, V, N) /\ E.end = DcLen(C, V, N) /\ E.len = E.end
              /\ Keep /\ Adv
@@ -99,7 +102,7 @@ TCheckResponseSignature ==
 \* ele2: the device twin accepts the honest response for its own challenge
 TDeliver == Is("Deliver") /\ E.verdict = "Accept" /\ Keep /\ Adv
 \* every substitution the intruder tries gets the verdict of the acceptance automaton
-TAttempt == /\ l <= Len(T) /\ E.e = "Attempt" /\ Open /\ C # "ele2" /\ E.a.binds = BindsUuid(V)
+TAttempt == /\ l <= Len(T) /\ E.e = "Attempt" /\ Open /\ cs.lane = "main" /\ C # "ele2" /\ E.a.binds = BindsUuid(V)
             /\ E.a.c0 \in Creds /\ E.a.c \in Creds /\ {E.a.u0, E.a.u, E.a.d} \subseteq Devices /\ {E.a.ch0, E.a.ch} \subseteq Chals /\ E.a.b \in Beacons
             /\ E.verdict = AttemptVerdict(E.a, cs.wild)
             /\ Keep /\ l' = l + 1 /\ UNCHANGED <<tid, pos>>
@@ -108,7 +111,7 @@ TAttempt == /\ l <= Len(T) /\ E.e = "Attempt" /\ Open /\ C # "ele2" /\ E.a.binds
 \* a device may have outstanding, the verdict of the acceptance automaton for Resp(cA, b_k, d_k, ch_k) - i.e. it is bound to ITS
 \* challenge (and, ECC, device).  A step the host refuses builds nothing (ok = FALSE).
 HistDevices == IF C = "ele2" THEN {"d1"} ELSE Devices
-THistory == /\ l <= Len(T) /\ E.e = "History" /\ Open
+THistory == /\ l <= Len(T) /\ E.e = "History" /\ Open /\ cs.lane = "main"
             /\ ValidHistory(E.h, C = "ele2") /\ Len(E.obs) = Len(E.h)
             /\ \A k \in 1..Len(E.h) : E.obs[k].ok =>
                   /\ E.obs[k].dcEq /\ E.obs[k].bIs = E.h[k].b
@@ -126,12 +129,57 @@ TamperAllowed(part, field) ==
     [] C # "ele2" /\ part = "dc" /\ field = "signature" -> {"CheckDcSignature"}
     [] C # "ele2" /\ part = "dar" /\ field \in DarNames -> {"CheckResponseSignature"}
     [] OTHER -> {}
-TTamper == /\ l <= Len(T) /\ E.e = "Tamper" /\ Open /\ E.verdict \in TamperAllowed(E.part, E.field)
+TTamper == /\ l <= Len(T) /\ E.e = "Tamper" /\ Open /\ cs.lane = "main" /\ E.verdict \in TamperAllowed(E.part, E.field)
            /\ Keep /\ l' = l + 1 /\ UNCHANGED <<tid, pos>>
+\* ------------------------------------------------------------------ lane "cred": histories of ONE credential object (DatTerms)
+\* Every operation the host performs on the object is one event; `ob` is the object of DatTerms stepped along them with the REAL values
+\* (cur / over / wire hold what the harness set: limbs, byte lists, the name of the debug key).  Decided here:
+\*   - an object without a signature exports nothing (or, should the host sign on the way, a credential as good as after Sign);
+\*   - every export of an object whose signature was made over its current values (sign() returned, no Set since) has the layout of
+\*     the case, carries exactly the CURRENT values (independent reader), names the configured RoT key, and its signature verifies under
+\*     that key over exactly the bytes in front of it - the device's CheckDcSignature on the term the object model puts on the wire;
+\*   - SPSDK's parser reads such an export back to the values exported, and the parsed object exports the same bytes again.
+\* Not decided: an export after a Set without a Sign in between (and whatever is parsed from it); whether a Sign without the key is
+\* refused - but a Sign that returns has signed (container version 2 excepted: its signature container documents that it keeps the
+\* raw signature it was parsed with when it has no key).
+CredLane == l <= Len(T) /\ Open /\ cs.lane = "cred"
+CredAdv == l' = l + 1 /\ UNCHANGED <<tid, pos, cs, inp>>
+Settable == IF C = "ele2" THEN {"socc", "socu", "beacon"} ELSE CredFields
+CredVals(i) == [socc |-> i.socc, uuid |-> i.uuid, socu |-> i.socu, vu |-> i.vu, beacon |-> i.beacon, dck |-> i.dck]
+CredFieldsEqual(o, v) == /\ o.socc = v.socc /\ o.uuid = v.uuid /\ o.socu = v.socu /\ o.beacon = v.beacon /\ o.dck = v.dck
+                         /\ IF C = "ele2" THEN TRUE
+                            ELSE /\ o.ver = cs.ver /\ o.vu = v.vu /\ o.nkeys = N
+                                 /\ (~(C = "classic" /\ IsRsa(V)) => o.used = cs.used)
+TCredNewRefused == CredLane /\ E.e = "CredNew" /\ ~E.ok /\ ob' = [alive |-> FALSE] /\ CredAdv
+TCredNew == CredLane /\ E.e = "CredNew" /\ E.ok /\ ob' = CredNew(CredVals(E.in)) /\ CredAdv
+TCredSign == /\ CredLane /\ E.e = "CredSign" /\ ob.alive
+             /\ ob' = (IF E.ok /\ (ob.prov \/ C # "ele2") THEN CredSigned(ob) ELSE ob)
+             /\ CredAdv
+TCredSet == /\ CredLane /\ E.e = "CredSet" /\ ob.alive /\ E.f \in Settable
+            /\ IF E.ok THEN E.to # ob.cur[E.f] /\ ob' = CredSetTo(ob, E.f, E.to)
+               ELSE ob' = ob                                                     \* the assignment was refused: the object stays as it is
+            /\ CredAdv
+ExportClause(o) ==
+                /\ E.walk /\ E.fields = DcTable(C, V, N) /\ E.end = DcLen(C, V, N) /\ E.len = E.end
+                /\ CredFieldsEqual(E.out, o.cur) /\ E.flagsOk
+                /\ E.rotIdx = cs.used /\ (RotHashDefined(V) \/ C = "ele2" => E.tableOk)
+                /\ E.from = 0 /\ E.to = DcSigAt(C, V, N) /\ E.sigAt = DcSigAt(C, V, N) /\ E.sigLen = SigLen(V)
+                /\ E.sigOk = CheckDcSignature(CredOnWire(o))
+TCredExport == /\ CredLane /\ E.e = "CredExport" /\ ob.alive
+               /\ IF ob.lost THEN ob' = ob
+                  ELSE IF ~E.ok THEN ob' = ob                                   \* refused: nothing was exported
+                  ELSE IF ob.st = "unsigned" THEN ob.prov /\ ExportClause(CredSigned(ob)) /\ ob' = CredExported(CredSigned(ob))
+                  ELSE IF CredClean(ob) THEN ExportClause(ob) /\ ob' = CredExported(ob)
+                  ELSE ob' = CredExported(ob)
+               /\ CredAdv
+TCredParse == /\ CredLane /\ E.e = "CredParse" /\ ob.alive /\ ob.wst # "none"
+              /\ (~ob.lost /\ ob.wst = "clean" => E.ok /\ CredFieldsEqual(E.out, ob.wire) /\ E.reexport)
+              /\ ob' = CredParsed(ob) /\ CredAdv
 TDone == /\ l <= Len(T) /\ E.e = "Done" /\ (Open \/ pos = Refused) /\ Keep /\ l' = l + 1 /\ pos' = Finished /\ UNCHANGED tid
 TNext == \/ TCase \/ TSkip \/ TCreateRefused \/ TCreate \/ TDcLayout \/ TDcFields \/ TDcKeys \/ TSpsdkParse \/ TCheckDcSignature
          \/ TCheckRotHash \/ TDac \/ TRespondRefused \/ TRespond \/ TDarLayout \/ TDarFields \/ TCheckResponseSignature \/ TDeliver
          \/ TAttempt \/ THistory \/ TTamper \/ TDone
+         \/ TCredNewRefused \/ TCredNew \/ TCredSign \/ TCredSet \/ TCredExport \/ TCredParse
 Constr == IF TLCGet(tid) < l THEN TLCSet(tid, l) ELSE TRUE
 Post == /\ PrintT(<<"DONE", Len(Traces)>>)
         /\ \A i \in 1..Len(Traces) :
